@@ -13,8 +13,14 @@ covered), every ending (`fin`, `truncated` = FIN inside a frame, `reset c`, `ope
 documented call pattern (`documented`: head; `recv_data` until it answers something else than
 data; `recv_trailers` if that was `None`).  For `reset` the sequence is the part of the stream
 the frame layer delivers before it notices the reset (any prefix: the quantifier covers them
-all).  `HdrOk`: the HEADERS blocks decode to well-formed messages (C11/C12 decide that).
-`TokWF`: pieces are non-empty and do not exceed the declared length. -/
+all).  `HdrsOk` (positional): the FIRST HEADERS block of the sequence decodes to a well-formed
+message head, the SECOND one to a well-formed trailer section (C11/C12 decide that); nothing is
+asked of a block in the other position — a real head carries `:method`/`:status`, which no trailer
+section may, so no block is acceptable in both — and nothing of a third HEADERS frame, which is
+refused undecoded.  (Until the audit the hypothesis was `HdrOk` for every token — both positions at
+once — which no block satisfies under a faithful oracle; `hdrsOk_of_hdrOk`: it implies `HdrsOk`, so
+every theorem below implies its former self.)  `TokWF`: pieces are non-empty and do not exceed the
+declared length. -/
 namespace H3.Props.C03
 open H3.ReqRecv H3.Frame H3.Gen.Consts
 open H3.Spec.ReqSeq hiding Bytes
@@ -29,18 +35,18 @@ def answers (toks : List Tok) (e : Ending) : Nat := (compile toks e).1.length
     open); end of body only at trailers or FIN; trailers iff present; everything outside the
     language = connection error H3_FRAME_UNEXPECTED; FIN before HEADERS = stream refused. -/
 theorem C03_server_recv_spec (H : Hdr) (toks : List Tok) (e : Ending) (fuel : Nat)
-    (hwf : ∀ tok ∈ toks, TokWF tok ∧ HdrOk H tok) (hfuel : answers toks e + 2 ≤ fuel) :
+    (hwf : ∀ tok ∈ toks, TokWF tok) (hH : HdrsOk H toks) (hfuel : answers toks e + 2 ≤ fuel) :
     (spec .server (toks.map kind) (stopOf e)).accepts
       (observe (documentedFrames .server H fuel toks e)) :=
-  recv_spec .server H e toks fuel hwf hfuel
+  recv_spec .server H e toks fuel hwf hH hfuel
 
 /-- Client receive side: the same for `recv_response`. (FIN before HEADERS and PUSH_PROMISE are
     left open by the property: the recogniser accepts anything there, R-03.) -/
 theorem C03_client_recv_spec (H : Hdr) (toks : List Tok) (e : Ending) (fuel : Nat)
-    (hwf : ∀ tok ∈ toks, TokWF tok ∧ HdrOk H tok) (hfuel : answers toks e + 2 ≤ fuel) :
+    (hwf : ∀ tok ∈ toks, TokWF tok) (hH : HdrsOk H toks) (hfuel : answers toks e + 2 ≤ fuel) :
     (spec .client (toks.map kind) (stopOf e)).accepts
       (observe (documentedFrames .client H fuel toks e)) :=
-  recv_spec .client H e toks fuel hwf hfuel
+  recv_spec .client H e toks fuel hwf hH hfuel
 
 /-! non-vacuity: a message with grease, an empty DATA frame in the middle, a payload handed out in
     two pieces and trailers; the D-03 witness `HEADERS DATA(0) DATA(5)`; sequences outside the
@@ -121,6 +127,48 @@ private theorem expected_body (side : Side) (h : Bytes) (ks : List K) (stop : St
       rw [ih (acc ++ ps.flatten) hr, List.append_assoc]
     | _ => simp [isUD] at ht
 
+private theorem hdrBlocks_append : ∀ a b : List K, hdrBlocks (a ++ b) = hdrBlocks a ++ hdrBlocks b := by
+  intro a
+  induction a with
+  | nil => intro b; rfl
+  | cons k r ih => intro b; cases k <;> simp [hdrBlocks, ih]
+
+private theorem hdrBlocks_noH : ∀ l : List Tok, (∀ t ∈ l, ∀ b, t ≠ .headers b) → hdrBlocks (l.map kind) = [] := by
+  intro l
+  induction l with
+  | nil => intro _; rfl
+  | cons t r ih =>
+    intro h
+    have hk := kind_ne_H t (h t (by simp))
+    have hr := ih (fun x hx => h x (by simp [hx]))
+    rw [List.map_cons]
+    cases hkt : kind t with
+    | H b => exact absurd hkt (hk b)
+    | _ => simpa [hdrBlocks] using hr
+
+/-- for a message of the language the positional hypothesis is: the head block is an acceptable
+    head, the trailer block (if any) an acceptable trailer section -/
+theorem hdrsOk_valid (H : Hdr) (pre mid post : List Tok) (h : Bytes) (tr : Option Bytes)
+    (hpre : ∀ t ∈ pre, isU t = true) (hmid : ∀ t ∈ mid, isUD t = true) (hpost : ∀ t ∈ post, isU t = true)
+    (toks : List Tok)
+    (htoks : toks = pre ++ .headers h :: (mid ++ (match tr with | none => [] | some t => .headers t :: post)))
+    (hh : H.head h = .ok) (hT : ∀ t, tr = some t → H.trailer t = .ok) : HdrsOk H toks := by
+  subst htoks
+  have hU : ∀ l : List Tok, (∀ t ∈ l, isU t = true) → ∀ t ∈ l, ∀ b, t ≠ .headers b := by
+    intro l hl t ht b hb; subst hb; simpa [isU] using hl _ ht
+  have hUD : ∀ t ∈ mid, ∀ b, t ≠ .headers b := by
+    intro t ht b hb; subst hb; simpa [isUD] using hmid _ ht
+  unfold HdrsOk
+  rw [hdrsOkK_iff, List.map_append, hdrBlocks_append, hdrBlocks_noH pre (hU pre hpre), List.map_cons,
+    List.map_append]
+  simp only [kind, hdrBlocks, List.nil_append]
+  rw [hdrBlocks_append, hdrBlocks_noH mid hUD, List.nil_append]
+  cases tr with
+  | none => exact ⟨hh, trivial⟩
+  | some t =>
+    simp only [List.map_cons, kind, hdrBlocks]
+    exact ⟨hh, hT t rfl⟩
+
 /-- A message of the language — unknown frames, HEADERS, then DATA frames of any length
     (zero included) and unknown frames, then optionally HEADERS followed by unknown frames — ended
     by FIN is delivered whole, in either role: the head; as body exactly the concatenation of the
@@ -131,12 +179,14 @@ theorem C03_valid_message_delivered (role : Role) (H : Hdr) (pre mid post : List
     (hpre : ∀ t ∈ pre, isU t = true) (hmid : ∀ t ∈ mid, isUD t = true) (hpost : ∀ t ∈ post, isU t = true)
     (toks : List Tok)
     (htoks : toks = pre ++ .headers h :: (mid ++ (match tr with | none => [] | some t => .headers t :: post)))
-    (hwf : ∀ tok ∈ toks, TokWF tok ∧ HdrOk H tok) (hfuel : answers toks .fin + 2 ≤ fuel) :
+    (hwf : ∀ tok ∈ toks, TokWF tok) (hh : H.head h = .ok) (hT : ∀ t, tr = some t → H.trailer t = .ok)
+    (hfuel : answers toks .fin + 2 ≤ fuel) :
     observe (documentedFrames role H fuel toks .fin) =
       { calls := [.head h, .body (payloads mid), .bodyEnd,
                   (match tr with | none => .noTrailers | some t => .trailers t)]
         connError := none, streamReset := none } := by
-  have hacc := recv_spec role H .fin toks fuel hwf hfuel
+  have hHs : HdrsOk H toks := hdrsOk_valid H pre mid post h tr hpre hmid hpost toks htoks hh hT
+  have hacc := recv_spec role H .fin toks fuel hwf hHs hfuel
   subst htoks
   rw [List.map_append, expected_skip_unknown _ _ _ _ pre hpre, List.map_cons] at hacc
   simp only [kind, expected, List.map_append] at hacc
@@ -201,12 +251,12 @@ private theorem violates_expected (side : Side) (stop : Stop) :
     meets the frame fails with it, it is what the error cell holds, the stream is not reset —
     whatever follows the offending frame and however the stream ends. -/
 theorem C03_invalid_sequence_frame_unexpected (role : Role) (H : Hdr) (toks : List Tok) (e : Ending)
-    (fuel : Nat) (hwf : ∀ tok ∈ toks, TokWF tok ∧ HdrOk H tok) (hfuel : answers toks e + 2 ≤ fuel)
+    (fuel : Nat) (hwf : ∀ tok ∈ toks, TokWF tok) (hH : HdrsOk H toks) (hfuel : answers toks e + 2 ≤ fuel)
     (hbad : violates (sideOf role) .start (toks.map kind) = true) :
     let o := observe (documentedFrames role H fuel toks e)
     o.connError = some CODE_H3_FRAME_UNEXPECTED ∧ o.streamReset = none ∧
     o.calls.getLast? = some (.connError CODE_H3_FRAME_UNEXPECTED) :=
-  violates_expected (sideOf role) (stopOf e) _ _ hbad _ (recv_spec role H e toks fuel hwf hfuel)
+  violates_expected (sideOf role) (stopOf e) _ _ hbad _ (recv_spec role H e toks fuel hwf hH hfuel)
 
 example : violates .server .start ([Tok.headers [1], .data 1 [[5]], .goaway 0, .headers [2]].map kind) = true := by decide
 example : violates .server .start ([Tok.headers [1], .pushPromise 0 []].map kind) = true := by decide
@@ -290,7 +340,7 @@ example : (pollRecvTrailers tokSrc allOk
 theorem C03_lifted_to_chunks {σ : Type} (S : Src σ) (R : σ → TS → Prop) (sim : FrameSim S tokSrc R)
     (role : Role) (H : Hdr) (c : σ) (toks : List Tok) (e : Ending) (fuel : Nat)
     (hR : R c (TS.ofToks toks e))
-    (hwf : ∀ tok ∈ toks, TokWF tok ∧ HdrOk H tok) (hfuel : answers toks e + 2 ≤ fuel) :
+    (hwf : ∀ tok ∈ toks, TokWF tok) (hH : HdrsOk H toks) (hfuel : answers toks e + 2 ≤ fuel) :
     documented role S H fuel { src := c } = documentedFrames role H fuel toks e ∧
     (spec (sideOf role) (toks.map kind) (stopOf e)).accepts
       (observe (documented role S H fuel { src := c })) := by
@@ -299,7 +349,7 @@ theorem C03_lifted_to_chunks {σ : Type} (S : Src σ) (R : σ → TS → Prop) (
       ⟨hR, rfl, rfl⟩ rfl
   refine ⟨h, ?_⟩
   rw [h]
-  exact recv_spec role H e toks fuel hwf hfuel
+  exact recv_spec role H e toks fuel hwf hH hfuel
 
 /-! non-vacuity of the hypothesis: for a concrete transport script (three chunks cutting frame
     headers and a payload, then FIN) the relation "reachable together" between the `FrameStream`
@@ -368,7 +418,7 @@ theorem simS : FrameSim fsSrc tokSrc (RpOf script₁ toksS .fin) :=
 example : (spec .server (toksS.map kind) .fin).accepts
     (observe (documented .server fsSrc allOk 20 { src := ({}, script₁) })) :=
   (C03_lifted_to_chunks fsSrc _ simS .server allOk ({}, script₁) toksS .fin 20 (by decide +kernel)
-    (by simp [toksS, TokWF, HdrOk, allOk]) (by decide)).2
+    (by simp [toksS, TokWF]) (by decide) (by decide)).2
 
 /-- a DATA frame cut short by FIN (FIN read with the frame header): the frame layer hands out
     nothing of the payload, then `UnexpectedEnd`; `is_eos` is true there with data outstanding -/
@@ -381,7 +431,7 @@ theorem simT : FrameSim fsSrc tokSrc (RpOf script₂ toksT .truncated) :=
 example : observe (documented .server fsSrc allOk 20 { src := ({}, script₂) }) =
     { calls := [.head [0xaa], .body [], .connError 262], connError := some 262 } := by
   rw [(C03_lifted_to_chunks fsSrc _ simT .server allOk ({}, script₂) toksT .truncated 20 (by decide +kernel)
-    (by simp [toksT, TokWF, HdrOk, allOk]) (by decide)).1]
+    (by simp [toksT, TokWF]) (by decide) (by decide)).1]
   decide
 
 example : documentedChunks .server allOk script₁ = documentedFrames .server allOk 20 toksS .fin := by
@@ -437,39 +487,41 @@ theorem C03_frame_layer_simulation :
     of non-empty chunks (ANY cutting of the bytes, `Pending` anywhere, FIN / RESET anywhere or
     neither) whose bytes before the first FIN carry no WebTransport header at a frame position
     (`NoRaw`, a decidable condition on the byte string, `C03_noraw_of_framing_spec`) and whose
-    HEADERS blocks decode to well-formed messages (`hH`, as in `C03_server_recv_spec`; the blocks
-    are those the reference automaton finds in these bytes):
-    there is a frame sequence `toks` with ending `e`, well formed and tied to the bytes of the
+    HEADERS blocks are acceptable to the oracle IN THEIR POSITIONS (`hH`: of the blocks the
+    reference automaton finds in these bytes the first is a well-formed head, the second a
+    well-formed trailer section — `HdrsOkK` on the recogniser's input `kindsOf …`):
+    there is a frame sequence `toks` with ending `e`, well formed, with acceptable blocks
+    (`HdrsOk`; its HEADERS frames are HEADERS frames of the bytes) and tied to the bytes of the
     script (`Tied`), such that the documented call pattern over the chunked frame layer —
     `documentedChunks`, and `documented role fsSrc` with any fuel — gives exactly the trace of the
     frame-level model on `toks`/`e`; hence its observed outcome is one the RFC 9114 §4.1 recogniser
     accepts for `toks`.  No simulation hypothesis is left. -/
 theorem C03_lifted_to_chunks_closed (role : Role) (H : Hdr) (sc : List H3.FS.Ev)
     (hsc : ScriptOK sc) (hraw : NoRaw (evBytes (upToFin sc)))
-    (hH : ∀ b, H3.FS.Tok.frame (.headers b) ∈ (run frameDec (.hdr []) (evBytes (upToFin sc))).2 →
-      H.head b = .ok ∧ H.trailer b = .ok) :
-    ∃ toks e, Tied sc toks e ∧ (∀ tok ∈ toks, TokWF tok ∧ HdrOk H tok) ∧
+    (hH : HdrsOkK H .head (kindsOf (run frameDec (.hdr []) (evBytes (upToFin sc))).2)) :
+    ∃ toks e, Tied sc toks e ∧ (∀ tok ∈ toks, TokWF tok) ∧ HdrsOk H toks ∧
+      (∀ b, Tok.headers b ∈ toks →
+        H3.FS.Tok.frame (.headers b) ∈ (run frameDec (.hdr []) (evBytes (upToFin sc))).2) ∧
       documentedChunks role H sc = documentedFrames role H (fsFuel ({}, sc)) toks e ∧
       (spec (sideOf role) (toks.map kind) (stopOf e)).accepts (observe (documentedChunks role H sc)) ∧
       ∀ fuel, documented role fsSrc H fuel { src := ({}, sc) } = documentedFrames role H fuel toks e := by
   obtain ⟨toks, e, hR, hwf, hfuel, hhdr, htied⟩ := lift_exists sc hsc hraw
-  have hok : ∀ tok ∈ toks, TokWF tok ∧ HdrOk H tok := by
-    intro tok htok
-    refine ⟨hwf tok htok, ?_⟩
-    cases tok with
-    | headers b =>
-      obtain ⟨more, hm⟩ := tied_prefix htied
-      exact hH b (by rw [← hm]; exact List.mem_append_left _ (hhdr b htok))
-    | _ => trivial
+  have hok : HdrsOk H toks := tied_hdrsOk H htied hH
+  have hmem : ∀ b, Tok.headers b ∈ toks →
+      H3.FS.Tok.frame (.headers b) ∈ (run frameDec (.hdr []) (evBytes (upToFin sc))).2 := by
+    intro b htok
+    obtain ⟨more, hm⟩ := tied_prefix htied
+    rw [← hm]
+    exact List.mem_append_left _ (hhdr b htok)
   have hdoc : ∀ fuel, documented role fsSrc H fuel { src := ({}, sc) } =
       documentedFrames role H fuel toks e := fun fuel =>
     same_documentedP liftR_sim tokSrc_hdrNoData role H fuel (x := { src := ({}, sc) })
       (y := { src := TS.ofToks toks e }) ⟨fun _ => hR, rfl, rfl⟩ rfl
-  refine ⟨toks, e, htied, hok, hdoc _, ?_, hdoc⟩
+  refine ⟨toks, e, htied, hwf, hok, hmem, hdoc _, ?_, hdoc⟩
   show (spec (sideOf role) (toks.map kind) (stopOf e)).accepts
     (observe (documented role fsSrc H (fsFuel ({}, sc)) { src := ({}, sc) }))
   rw [hdoc]
-  exact recv_spec role H e toks _ hok hfuel
+  exact recv_spec role H e toks _ hwf hok hfuel
 
 /-! non-vacuity of `C03_lifted_to_chunks_closed`: the hypotheses hold for concrete scripts (`NoRaw`
     is decided by evaluating the reference automaton), e.g. `script₁` above, and a script with a `Pending` in the middle, where the documented pattern stops at the
@@ -480,28 +532,32 @@ example : ScriptOK script₁ ∧ NoRaw (evBytes (upToFin script₁)) := by
   simp [script₁] at hb
   rcases hb with rfl | rfl | rfl <;> simp
 
-example : ∃ toks e, Tied script₁ toks e ∧ (∀ tok ∈ toks, TokWF tok ∧ HdrOk allOk tok) ∧
+example : ∃ toks e, Tied script₁ toks e ∧ (∀ tok ∈ toks, TokWF tok) ∧ HdrsOk allOk toks ∧
+    (∀ b, Tok.headers b ∈ toks →
+      H3.FS.Tok.frame (.headers b) ∈ (run frameDec (.hdr []) (evBytes (upToFin script₁))).2) ∧
     documentedChunks .server allOk script₁ = documentedFrames .server allOk (fsFuel ({}, script₁)) toks e ∧
     (spec .server (toks.map kind) (stopOf e)).accepts (observe (documentedChunks .server allOk script₁)) ∧
     ∀ fuel, documented .server fsSrc allOk fuel { src := ({}, script₁) } =
       documentedFrames .server allOk fuel toks e :=
   C03_lifted_to_chunks_closed .server allOk script₁
     (by intro b hb; simp [script₁] at hb; rcases hb with rfl | rfl | rfl <;> simp)
-    (by decide +kernel) (fun _ _ => ⟨rfl, rfl⟩)
+    (by decide +kernel) (by decide +kernel)
 
 def script₃ : List H3.FS.Ev :=
   [.chunk [0x01], .chunk [0x02, 0xaa, 0xbb], .pend, .chunk [0x00, 0x02, 0xc1, 0xc2], .fin]
 
 example : observe (documentedChunks .server allOk script₃) =
     { calls := [.head [0xaa, 0xbb], .body [], .pending] } := by decide +kernel
-example : ∃ toks e, Tied script₃ toks e ∧ (∀ tok ∈ toks, TokWF tok ∧ HdrOk allOk tok) ∧
+example : ∃ toks e, Tied script₃ toks e ∧ (∀ tok ∈ toks, TokWF tok) ∧ HdrsOk allOk toks ∧
+    (∀ b, Tok.headers b ∈ toks →
+      H3.FS.Tok.frame (.headers b) ∈ (run frameDec (.hdr []) (evBytes (upToFin script₃))).2) ∧
     documentedChunks .client allOk script₃ = documentedFrames .client allOk (fsFuel ({}, script₃)) toks e ∧
     (spec .client (toks.map kind) (stopOf e)).accepts (observe (documentedChunks .client allOk script₃)) ∧
     ∀ fuel, documented .client fsSrc allOk fuel { src := ({}, script₃) } =
       documentedFrames .client allOk fuel toks e :=
   C03_lifted_to_chunks_closed .client allOk script₃
     (by intro b hb; simp [script₃] at hb; rcases hb with rfl | rfl | rfl <;> simp)
-    (by decide +kernel) (fun _ _ => ⟨rfl, rfl⟩)
+    (by decide +kernel) (by decide +kernel)
 -- a WebTransport header at a frame position is what `NoRaw` excludes
 example : ¬ NoRaw [0x01, 0x00, 0x40, 0x41, 0x04, 0xaa] := by decide +kernel
 
@@ -518,22 +574,21 @@ example : NoRaw [0x01, 0x02, 0xaa, 0xbb, 0x00, 0x01, 0xc1] :=
 /-- **The same for every chunking: FIN on a frame boundary.**  The wire bytes `w`, cut into
     non-empty chunks in ANY way (`pre`: chunks only, `evBytes pre = w`), then FIN (whatever the
     script says behind it is never looked at).  If `w` is a sequence of complete frames (the
-    reference automaton stands at a frame boundary; no WebTransport header; the HEADERS blocks found
-    in `w` decode to well-formed messages) then the observed outcome of the documented pattern over
+    reference automaton stands at a frame boundary; no WebTransport header; of the HEADERS blocks
+    found in `w` the first is an acceptable head and the second an acceptable trailer section) then the observed outcome of the documented pattern over
     the chunked frame layer is one the RFC 9114 §4.1 recogniser accepts for the frame kinds read
     off the reference automaton's tokens over `w` (`kindsOf`), ended by FIN.  The right-hand side
     mentions neither the chunking nor the frame layer: the outcome (head, body bytes, end of body,
     trailers, or the connection error / stream refusal) is a function of the bytes alone. -/
 theorem C03_chunked_outcome_fin (role : Role) (H : Hdr) (pre post : List H3.FS.Ev)
     (hpre : OnlyChunks pre) (hsc : ScriptOK (pre ++ .fin :: post)) (hraw : NoRaw (evBytes pre))
-    (hH : ∀ b, H3.FS.Tok.frame (.headers b) ∈ (run frameDec (.hdr []) (evBytes pre)).2 →
-      H.head b = .ok ∧ H.trailer b = .ok)
+    (hH : HdrsOkK H .head (kindsOf (run frameDec (.hdr []) (evBytes pre)).2))
     (hclean : (run frameDec (.hdr []) (evBytes pre)).1 = .hdr []) :
     (spec (sideOf role) (kindsOf (run frameDec (.hdr []) (evBytes pre)).2) .fin).accepts
       (observe (documentedChunks role H (pre ++ .fin :: post))) := by
   have hfin : H3.FS.Ev.fin ∉ pre := fun hm => by obtain ⟨b, hb⟩ := hpre _ hm; cases hb
   have hup : upToFin (pre ++ .fin :: post) = pre := H3.FS.upToFin_fin pre post hfin
-  obtain ⟨toks, e, htied, _, _, hacc, _⟩ :=
+  obtain ⟨toks, e, htied, _, _, _, _, hacc, _⟩ :=
     C03_lifted_to_chunks_closed role H (pre ++ .fin :: post) hsc (by rw [hup]; exact hraw)
       (by rw [hup]; exact hH)
   obtain ⟨he, hk⟩ := tied_fin_exact hpre htied hclean
@@ -548,8 +603,7 @@ theorem C03_chunked_outcome_fin (role : Role) (H : Hdr) (pre post : List H3.FS.E
     progress is pending. -/
 theorem C03_chunked_outcome_open (role : Role) (H : Hdr) (sc : List H3.FS.Ev)
     (hch : OnlyChunks sc) (hsc : ScriptOK sc) (hraw : NoRaw (evBytes sc))
-    (hH : ∀ b, H3.FS.Tok.frame (.headers b) ∈ (run frameDec (.hdr []) (evBytes sc)).2 →
-      H.head b = .ok ∧ H.trailer b = .ok)
+    (hH : HdrsOkK H .head (kindsOf (run frameDec (.hdr []) (evBytes sc)).2))
     (hlive : (run frameDec (.hdr []) (evBytes sc)).1 ≠ .dead) :
     (spec (sideOf role) (kindsOf (run frameDec (.hdr []) (evBytes sc)).2) .open_).accepts
       (observe (documentedChunks role H sc)) := by
@@ -557,7 +611,7 @@ theorem C03_chunked_outcome_open (role : Role) (H : Hdr) (sc : List H3.FS.Ev)
   have hup : upToFin sc = sc := by
     have := H3.FS.upToFin_append_of_not_mem sc [] hfin
     simpa [upToFin] using this
-  obtain ⟨toks, e, htied, _, _, hacc, _⟩ :=
+  obtain ⟨toks, e, htied, _, _, _, _, hacc, _⟩ :=
     C03_lifted_to_chunks_closed role H sc hsc (by rw [hup]; exact hraw) (by rw [hup]; exact hH)
   obtain ⟨he, hk⟩ := tied_open_exact hch htied hlive
   rw [he, hk] at hacc
@@ -587,7 +641,7 @@ example (post : List H3.FS.Ev) (hpost : ScriptOK post) :
       · simp
       · simp
       · exact hpost b hb)
-    (by decide +kernel) (fun _ _ => ⟨rfl, rfl⟩) (by decide +kernel)
+    (by decide +kernel) (by decide +kernel) (by decide +kernel)
 example : observe (documentedChunks .server allOk
     [.chunk [0x01], .chunk [0x02], .chunk [0xaa, 0xbb, 0x00, 0x00, 0x00], .chunk [0x02, 0xc1, 0xc2, 0x21], .chunk [0x00],
       .fin]) = { calls := [.head [0xaa, 0xbb], .body [0xc1, 0xc2], .bodyEnd, .noTrailers] } := by
@@ -600,7 +654,7 @@ example : (spec .client (kindsOf (run frameDec (.hdr []) (wire₁.take 9)).2) .o
   C03_chunked_outcome_open .client allOk [.chunk [0x01, 0x02], .chunk [0xaa, 0xbb, 0x00, 0x00, 0x00, 0x02, 0xc1]]
     (by intro ev hev; simp at hev; rcases hev with rfl | rfl <;> exact ⟨_, rfl⟩)
     (by intro b hb; simp at hb; rcases hb with rfl | rfl <;> simp)
-    (by decide +kernel) (fun _ _ => ⟨rfl, rfl⟩) (by decide +kernel)
+    (by decide +kernel) (by decide +kernel) (by decide +kernel)
 
 /-- Why the simulation is `FrameSimP` and not `FrameSim`: for a script with a `Pending` before
     more data NO relation containing the initial configuration is a `FrameSim` between the
